@@ -281,8 +281,9 @@ Inv_C07_NoPremature   == Done => NoPremature(F, SelectSeq(out, LAMBDA m : ~m.ov)
 (* both pooling methods give the same molecules when UMIs are compared exactly (radius 0); plain fragments:  *)
 (* unless a fragment matches an interior member only (MolAssignProps.InteriorMatch, finding D61)             *)
 Inv_C07_PoolingAgnostic ==
-    (Done /\ HD = 0 /\ Radius = 0 /\ Cap = 0 /\ (Kind = "plain" => ~InteriorMatch(F, { i \in DOMAIN F : F[i].valid })))
-        => GroupsOf(out) = GroupsOf(NoEject(stream, 1 - pooling))
+    (Done /\ HD = 0 /\ Radius = 0 /\ Cap = 0)
+        => \/ GroupsOf(out) = GroupsOf(NoEject(stream, 1 - pooling))
+           \/ (Kind = "plain" /\ InteriorMatch(F, { i \in DOMAIN F : F[i].valid }))     \* evaluated only when they differ
 
 InRegion == \A i \in DOMAIN F : 2 * (Span(F[i]) + (IF Kind = "nla" THEN 0 ELSE Radius)) <= CacheSize
 
